@@ -293,7 +293,31 @@ def c12(chk, thorough):
     chk.floor('G.pivot', 2)
 
 
+def c13(chk, thorough):
+    from . import slices, threads
+    chk.explanation = (
+        'Decides the partition / ownership / join clauses of C13: for each of the 10 dispatch loops that slice an index range among '
+        'workers, the loop body is abstracted to a guarded polynomial recurrence and S1 contiguity, S2 clamp, S3 coverage are checked '
+        'for every (rows, threads) pair of the bound (quick: rows 0..12 x threads 1..8; thorough: rows 0..40 x threads 1..24, the '
+        'property\'s own quantifier) -- "every row is processed by exactly one worker"; S4: worker stores through shared pointers are '
+        'indexed by the sliced variable; S5: condensed vectors are sized (n*n-n)/2; T3: every created thread is joined before its '
+        'arguments are freed; worker subscripts are in range under the facts the dispatcher establishes. NOT decided: numeric agreement '
+        'with the sequential kernels, metric axioms, bijectivity of the condensed index map (assumption), the value of GetNProcessor.')
+    chk.assumptions = ['square_to_condensed_index is injective on pairs i < k (arithmetic over runtime n, not decided)',
+                       'thread count >= 1', 'worker contracts of lsv/contracts.json (facts the dispatchers establish)']
+    prog = load_program(chk, ['matrix.c', 'metricspace.c', 'clustering.c', 'vector.c', 'memwrapper.c', 'numeric.c', 'list.c', 'tensor.c'])
+    n = slices.run(chk, prog, rmax=40 if thorough else 12, nmax=24 if thorough else 8, dom=4 if thorough else 3)
+    if n < 10:
+        chk.broke('only %d range-slicing dispatch loops found, floor 10' % n)
+    threads.t3(chk, prog)
+    chk.floor('S1-3.partition', 10)
+    chk.floor('S4.ownership', 7)
+    chk.floor('T3.create-join', 10)
+    chk.floor('S5.condensed', 3)
+
+
 CHECKS = {
+    'C13': c13,
     'C11': c11,
     'C12': c12,
     'C14': c14,
